@@ -4,7 +4,7 @@ import Mathlib.Tactic.SplitIfs
 
 /-! # Tie: the `Model.graph` property (generated from cellmlmanip/model.py) = `C09.buildGraph` (hand model) -/
 
-namespace Cellml.Tie
+namespace Cellml.Tie.PGraph
 open C09 Cellml.Gen
 
 /-! ## generic loops -/
@@ -383,4 +383,4 @@ theorem graph_independent (key : Node → String) (eqs : List Eqn) (vars vars' :
       = (GraphBuild.graph (buildView key eqs vars' rq') none ty0').map (fun r => (r.1, r.2.1)) := by
   rw [graph_tie, graph_tie]
 
-end Cellml.Tie
+end Cellml.Tie.PGraph
